@@ -793,6 +793,9 @@ pub struct ArgCase {
     pub mode: Mode,
     pub threads: u8,
     pub tree_has_match: bool,
+    /// what is searched: "." (directory), "f0" (one explicit file), "f0 f1", "-" (stdin)
+    #[serde(default)]
+    pub target: String,
 }
 
 fn arg_cases() -> Vec<ArgCase> {
@@ -828,15 +831,21 @@ fn arg_cases() -> Vec<ArgCase> {
                         if *kind != "regex" && !with_good_pattern {
                             continue;
                         }
-                        out.push(ArgCase {
-                            kind: kind.to_string(),
-                            bad: bad.iter().map(|s| s.to_string()).collect(),
-                            with_good_pattern,
-                            bad_last,
-                            mode,
-                            threads,
-                            tree_has_match,
-                        });
+                        for target in [".", "f0", "f0 f1", "-"] {
+                            if target == "-" && (mode.is_files() || threads != 1) {
+                                continue;
+                            }
+                            out.push(ArgCase {
+                                kind: kind.to_string(),
+                                bad: bad.iter().map(|s| s.to_string()).collect(),
+                                with_good_pattern,
+                                bad_last,
+                                mode,
+                                threads,
+                                tree_has_match,
+                                target: target.to_string(),
+                            });
+                        }
                     }
                 }
             }
@@ -873,7 +882,11 @@ pub fn check_args(c: &ArgCase) -> Verdict {
         if c.bad_last {
             rg = rg.args(c.bad.iter().cloned());
         }
-        rg.arg(".")
+        match c.target.as_str() {
+            "" | "." => rg.arg("."),
+            "-" => rg.arg("-").stdin(if c.tree_has_match { b"needle 0\nhay\n".to_vec() } else { b"hay\n".to_vec() }),
+            t => rg.args(t.split(' ')),
+        }
     };
     let (out, cmd) = run_twice_on_timeout(&mk);
     if out.timed_out {
@@ -900,6 +913,12 @@ pub fn check_args(c: &ArgCase) -> Verdict {
         _ => "invalid_flag_value",
     });
     info.class(mode_class("args", c.mode, c.threads));
+    info.class(match c.target.as_str() {
+        "" | "." => "target_directory",
+        "-" => "target_stdin",
+        "f0" => "target_one_explicit_file",
+        _ => "target_two_explicit_files",
+    });
     Verdict::Pass(info)
 }
 
